@@ -115,7 +115,7 @@ func check(c *Ctx, h *animenc.History, stream string) {
 func main() {
 	Main("c08", func(c *Ctx) {
 		c.D.Rule = "lossless encoder sessions: canvas 1x1..24x24, 1..8 AddFrame calls (repeat / small block / cleared block / colour under alpha 0 / single pixel / large change / new picture / smaller-or-larger-than-canvas frames), opaque / binary / graded / boundary alpha, durations incl. 0, 2^24-1 and sums crossing 2^24, 12 Kmin/Kmax settings, loop counts; plus unit cases for findChangedRect, snapToEven, sanitizeKeyframeOptions; non-trivial = >= 2 inputs, distinct = distinct per-written-frame (full, 1x1, blend, dispose, codec) signature"
-		n, nu := 700, 400
+		n, nu := 3000, 1000
 		if c.Thorough() {
 			n, nu = 12000, 5000
 		}
